@@ -829,13 +829,24 @@ pub fn c07_configs(ctx: &mut Ctx) {
     }
     big.push(((0..40).map(|i| fill(b"AC", 5 + i % 7)).collect(), 3));
     big.push(((0..64).map(|_| b"AAAAAAAAAA".to_vec()).collect(), 4));
+    // counts tables of exactly 4 KiB, 8 KiB, 64 KiB (every line has 8 bytes), one line less, one more
+    {
+        let recs = eight_byte_line_records(16_400);
+        for nrec in crate::conc::boundary_counts(0, 8, 16_390) {
+            big.push((recs[..nrec].to_vec(), 8));
+        }
+    }
     big.push((crate::vecs::repeating_records(), 4));
     big.push((crate::vecs::repeating_records(), 10));
     big.push(((0..3000usize).map(|i| long_bases(2 + i % 11, i)).collect(), 3));
     for (recs, k) in &big {
         // ceilings are scaled to the input so that the chunk x partition grid stays in the hundreds of files
-        let many = recs.len() > 1000;
-        let cfg_many: [(usize, f64); 4] = [(1, 6.0), (4, 2e-6), (16, 5e-6), (3, 1e-6)];
+        let total: usize = recs.iter().map(|r| r.len()).sum();
+        let many = recs.len() > 1000 || total > 500;
+        // for the larger inputs the ceiling is a fraction of the input (a base is 1e-8 "GB" here), so that a run has a
+        // handful of chunks whatever the size of the set
+        let per = |parts: usize| (total / parts).max(1) as f64 * 1e-8;
+        let cfg_many: [(usize, f64); 4] = [(1, 6.0), (4, per(5)), (16, per(11)), (3, per(3))];
         let cfg_few: [(usize, f64); 4] = [(1, 6.0), (4, 1e-7), (16, 2e-8), (8, 1e-9)];
         for &(threads, mem) in if many { &cfg_many } else { &cfg_few } {
             for (acgt, delete) in [(false, true), (true, false)] {
@@ -936,12 +947,21 @@ fn c08_pipeline(ctx: &mut Ctx, records: &[Vec<u8>], alt: Option<&[Vec<u8>]>, k: 
     }
     let table = model::counts(alt.unwrap_or(records), k);
     let text = std::fs::read_to_string(format!("{dir}/kmers.vectors")).unwrap_or_default();
+    if !text.is_empty() && text.len() % 4096 == 0 {
+        ctx.rep.count("outputs_on_a_4k_multiple", 1);
+    }
     if let Err((key, msg)) = check_cov_rows(&text, records, k, &table, bs, bc, norm) {
         return viol(ctx, &key, size, format!("{what}: {msg}"), argv);
     }
     if records.iter().any(|r| r.len() >= k) {
         ctx.rep.nontrivial += 1;
     }
+}
+
+/// records holding one canonical 8-mer each, all with five-digit codes: every line of the counts table ("code, tab,
+/// count 1, line feed") has 8 bytes, so n records give a table of exactly 8n bytes
+pub fn eight_byte_line_records(n: usize) -> Vec<Vec<u8>> {
+    model::canon_index(8).into_iter().filter(|c| (10_000..100_000).contains(c)).take(n).map(|c| model::text_of(c, 8)).collect()
 }
 
 /// compute_coverages on a harness-written counts table
@@ -1313,6 +1333,39 @@ pub fn c08(ctx: &mut Ctx) {
         }
     }
     ctx.rep.count("cases.pipeline_multiplicity", n);
+    // vector files whose size is exactly a multiple of 4 KiB / 8 KiB / 64 KiB (normalised rows have a fixed width)
+    {
+        let pool: Vec<Vec<u8>> = (0..8200usize).map(|i| long_bases(2 + i % 7, i)).collect();
+        let mut nb = 0u64;
+        for bc in [3usize, 16, 64] {
+            let row = {
+                // measured on one record, so that the row format is not assumed here
+                let mut c = CovComputer::new("-".into(), "-".into(), 2, 2, bc);
+                c.set_norm(true);
+                let v = c.verif_vectorise_one(b"ACGT", &HashMap::new());
+                v.iter().map(|x| format!("{:.6}", x)).collect::<Vec<_>>().join(" ").len() + 1
+            };
+            for nrec in crate::conc::boundary_counts(0, row, 8192) {
+                for (threads, mem) in [(1usize, 6.0f64), (4, 0.5)] {
+                    if sh.mine() {
+                        c08_pipeline(ctx, &pool[..nrec], None, 2, 2, bc, true, threads, mem);
+                        nb += 1;
+                    }
+                }
+            }
+        }
+        // counts tables of exactly 4 KiB, 8 KiB, 64 KiB (and 8 bytes less / more): the table is read back for the histograms
+        let recs = eight_byte_line_records(16_400);
+        for nrec in crate::conc::boundary_counts(0, 8, 16_390) {
+            for (threads, mem, norm) in [(1usize, 6.0f64, false), (4, 0.5, true)] {
+                if sh.mine() {
+                    c08_pipeline(ctx, &recs[..nrec], None, 8, 1, 3, norm, threads, mem);
+                    nb += 1;
+                }
+            }
+        }
+        ctx.rep.count("cases.size_boundaries", nb);
+    }
     // every record count 0..=40 (and a few larger) x threads 1..=8, 16: how a batch is split over the pool must not matter
     let pool: Vec<Vec<u8>> = (0..130usize).map(|i| fill(&[b"ACGT"[i % 4], b"ACGT"[(i / 4) % 4], b"AT"[(i / 16) % 2]], 2 + i % 7)).collect();
     let mut n = 0u64;
